@@ -151,8 +151,24 @@ func (e *Exec) applyContractFull(con *Contract, fn *ssa.Function, sig *types.Sig
 	for i, l := range con.Lets {
 		env.vars[l.Name] = e.evalSpecSafe(env, con.LetExprs[i], con, "let "+l.Name)
 	}
+	for _, ac := range e.Con.AtCalls {
+		if !ac.Clause.activeFor(e.Prop) || !(strings.HasSuffix(con.Key, "."+ac.Callee) || con.Key == ac.Callee) {
+			continue
+		}
+		cv := map[string]Value{}
+		for k, v := range vars {
+			cv[k] = v
+		}
+		cenv := &Env{e: e, vars: cv, st: pre, old: e.entry, pkgPath: e.Con.PkgPath, lookup: e.localEnv(pre)}
+		t := e.evalSpecBool(cenv, ac.Clause.Expr, e.Con, "atcall")
+		e.oblige("atcall", ac.Clause.Label+"@"+short+caseLabel, ac.Clause.Text, ac.Clause.Props, "", t)
+	}
 	if con.Fatal {
 		e.oblige("nofatal", short+caseLabel, "call of "+short+" (terminates the process abnormally)", nil, "", "false")
+	}
+	if fn != nil && fn.Signature.Recv() != nil && isPointer(fn.Signature.Recv().Type()) && len(args) > 0 && args[0].Loc == nil && len(args[0].S) == 1 {
+		// implicit precondition of every pointer-receiver method under contract
+		e.oblige("pre", "recv@"+short+caseLabel, "receiver != nil", nil, "", "(not (= "+args[0].S[0]+" 0))")
 	}
 	for _, r := range con.Requires {
 		if !r.activeFor(e.Prop) {
